@@ -145,6 +145,7 @@ func uintN(size uint8, buf []byte) uint64 {
 	case 8:
 		return bmffEndian.Uint64(buf[:8])
 	default:
-		panic("error here")
+		// size 0 means the field is absent (ISO/IEC 14496-12 8.11.3); other sizes are not defined
+		return 0
 	}
 }
